@@ -142,7 +142,8 @@ CLAIMED['C02'] = {
     'text': 'Static: the insertion safety net as must-pass-through instances: commit only behind validate_after_insertion '
             '(bootstrap excepted), link and orientation checkers on the true edge of the guarantee predicates, '
             'orientation normalisation / check and local ridge links after a per-insertion repair, Inserted only behind '
-            'maybe_check_after_insertion which validates when the policy fires. Path-sensitive for literal bool flags. '
+            'maybe_check_after_insertion which validates when the policy fires; the insertion owners are clean on failure (C03 '
+            'rollback dataflow), re-created vertices keep UUID and data. Path-sensitive for literal bool flags. '
             'Decides that no committing path skips the net; not that the validators suffice.',
     'note': 'Trusted: rustc MIR; edges taken when number_of_cells() == 0 and is_empty() on the checked collection are '
             'cut as legitimate bypasses; Pseudomanifold + ValidationPolicy::Never has no gate by design.',
